@@ -43,7 +43,11 @@ func firstLine(s string) string {
 
 // runPortfolio races the solvers on one file; the first definite answer wins.
 func runPortfolio(file string, timeoutS int, needAll bool) solveResult {
-	ctx, cancel := context.WithTimeout(context.Background(), time.Duration(timeoutS+2)*time.Second)
+	return runPortfolioCtx(context.Background(), file, timeoutS, needAll)
+}
+
+func runPortfolioCtx(parent context.Context, file string, timeoutS int, needAll bool) solveResult {
+	ctx, cancel := context.WithTimeout(parent, time.Duration(timeoutS+2)*time.Second)
 	defer cancel()
 	type ans struct {
 		solver, status, out string
@@ -108,8 +112,9 @@ func (e *Engine) solveObligations(obls []*Obligation, axioms, assumes, assumePCs
 	e.runScripts(obls, dir, timeoutS, make(chan struct{}, par), needAll)
 }
 
-// renderScripts builds the SMT-LIB text of every obligation (sequential: the
-// term tables are not thread safe).
+// renderScripts prepares the assertion sets of every obligation (sequential:
+// building terms is not thread safe).  The SMT-LIB text is printed lazily by
+// the solver workers (printing only reads terms).
 func (e *Engine) renderScripts(obls []*Obligation, axioms, assumes, assumePCs []*Term) {
 	for _, o := range obls {
 		if o.Status == "static" {
@@ -140,32 +145,27 @@ func (e *Engine) renderScripts(obls []*Obligation, axioms, assumes, assumePCs []
 		if syms["uf:elemIndex"] {
 			asserts = append([]*Term{ElemIndexAxiom()}, asserts...)
 		}
-		var mterms []*Term
 		if !o.Cover {
 			var nodes []*inputNode
 			for _, in := range o.inputs {
-				in.terms(&mterms, &nodes)
+				in.terms(&o.mterms, &nodes)
 			}
 		}
-		s := Script(asserts, true, mterms)
-		s += "(get-model)\n"
-		o.script = s
+		o.asserts = asserts
 		if len(asserts) < len(fullAsserts)-3 && !o.Cover {
 			// fallback without relevance pruning (the pruned query can only lose proofs)
 			if syms["uf:elemIndex"] {
 				fullAsserts = append([]*Term{ElemIndexAxiom()}, fullAsserts...)
 			}
-			o.scriptFull = Script(fullAsserts, true, mterms) + "(get-model)\n"
+			o.assertsFull = fullAsserts
 		}
-		o.SMTLen = len(s)
 		// abstraction variant: large string concatenations that occur more than
 		// once are replaced by fresh constants.  Forgetting their structure can
 		// only lose proofs, so "unsat" of the variant is a valid proof; any
 		// other answer of the variant is ignored.
 		if !o.Cover {
 			if abs, changed := abstractStrings(asserts); changed {
-				s3 := Script(abs, false, nil)
-				o.scriptAbs = s3
+				o.assertsAbs = abs
 			}
 		}
 		// quantifier-free variant: used to look for candidate models when the
@@ -180,12 +180,12 @@ func (e *Engine) renderScripts(obls []*Obligation, axioms, assumes, assumePCs []
 			}
 		}
 		if len(qf) < len(asserts) {
-			o.scriptQF = Script(qf, true, mterms) + "(get-model)\n"
+			o.assertsQF = qf
 		}
 	}
 }
 
-// runScripts races the solvers on every rendered obligation; `pool` bounds
+// runScripts races the solvers on every prepared obligation; `pool` bounds
 // the number of obligations in flight across all callers.
 func (e *Engine) runScripts(obls []*Obligation, dir string, timeoutS int, pool chan struct{}, needAll bool) {
 	os.MkdirAll(dir, 0o755)
@@ -206,7 +206,10 @@ func (e *Engine) runScripts(obls []*Obligation, dir string, timeoutS int, pool c
 				name = name[:180]
 			}
 			f := filepath.Join(dir, name+".smt2")
-			os.WriteFile(f, []byte("; "+o.ID+"\n"+o.script), 0o644)
+			script := Script(o.asserts, true, o.mterms) + "(get-model)\n"
+			os.WriteFile(f, []byte("; "+o.ID+"\n"+script), 0o644)
+			smtLen := len(script)
+			script = ""
 			tmo := timeoutS
 			if o.Cover && tmo > 6 {
 				tmo = 6
@@ -218,9 +221,9 @@ func (e *Engine) runScripts(obls []*Obligation, dir string, timeoutS int, pool c
 			// where it applies it answers at once
 			var r solveResult
 			doneAbs := false
-			if o.scriptAbs != "" {
+			if o.assertsAbs != nil {
 				fa := filepath.Join(dir, name+".abs.smt2")
-				os.WriteFile(fa, []byte("; abstraction variant of "+o.ID+"\n"+o.scriptAbs), 0o644)
+				os.WriteFile(fa, []byte("; abstraction variant of "+o.ID+"\n"+Script(o.assertsAbs, false, nil)), 0o644)
 				ra := runPortfolio(fa, 6, false)
 				if ra.status == "unsat" {
 					r = solveResult{status: "unsat", solver: ra.solver + "(abs)", secs: ra.secs, all: ra.all}
@@ -228,32 +231,37 @@ func (e *Engine) runScripts(obls []*Obligation, dir string, timeoutS int, pool c
 				}
 			}
 			if !doneAbs {
-				if o.scriptFull != "" {
-					// pruned query first with a third of the budget, then the full one
-					r = runPortfolio(f, tmo/3+1, false)
+				if o.assertsFull != nil {
+					// the pruned and the unpruned query race; "unsat" of either is a proof
+					ff := filepath.Join(dir, name+".full.smt2")
+					os.WriteFile(ff, []byte("; unpruned variant of "+o.ID+"\n"+Script(o.assertsFull, true, o.mterms)+"(get-model)\n"), 0o644)
+					ctx, cancel := context.WithCancel(context.Background())
+					ch := make(chan solveResult, 2)
+					go func() { ch <- runPortfolioCtx(ctx, f, tmo, false) }()
+					go func() { ch <- runPortfolioCtx(ctx, ff, tmo, needAll && !o.Cover) }()
+					r = <-ch
 					if r.status != "unsat" {
-						ff := filepath.Join(dir, name+".full.smt2")
-						os.WriteFile(ff, []byte("; unpruned variant of "+o.ID+"\n"+o.scriptFull), 0o644)
-						r2 := runPortfolio(ff, tmo, needAll && !o.Cover)
-						r2.secs += r.secs
-						if r2.status == "unsat" || r2.status == "sat" || r.status != "sat" {
+						r2 := <-ch
+						if r2.status == "unsat" || (r2.status == "sat" && r.status != "sat") {
 							r = r2
 						}
 					}
+					cancel()
 				} else {
 					r = runPortfolio(f, tmo, needAll && !o.Cover)
 				}
 			}
-			if r.status != "unsat" && r.status != "sat" && o.scriptQF != "" {
+			candidate := false
+			if r.status != "unsat" && r.status != "sat" && o.assertsQF != nil {
 				f2 := filepath.Join(dir, name+".qf.smt2")
-				os.WriteFile(f2, []byte("; quantifier-free variant of "+o.ID+"\n"+o.scriptQF), 0o644)
+				os.WriteFile(f2, []byte("; quantifier-free variant of "+o.ID+"\n"+Script(o.assertsQF, true, o.mterms)+"(get-model)\n"), 0o644)
 				r2 := runPortfolio(f2, tmo/2+1, false)
 				if r2.status == "sat" {
 					if o.Cover {
 						r.status, r.solver = "sat", r2.solver+"(qf)"
 					} else {
 						r.output = "candidate model from the quantifier-free variant (quantified assumptions dropped):\n" + r2.output
-						o.candidateQF = true
+						candidate = true
 					}
 				} else if r2.status == "unsat" && o.Cover {
 					r.status, r.solver = "unsat", r2.solver+"(qf)"
@@ -262,31 +270,18 @@ func (e *Engine) runScripts(obls []*Obligation, dir string, timeoutS int, pool c
 			}
 			mu.Lock()
 			o.Status, o.Solver, o.Time = r.status, r.solver, r.secs
+			o.SMTLen = smtLen
+			o.candidateQF = candidate
 			if r.status != "unsat" {
 				o.Model = r.output
 			}
 			o.smtFile = f
 			o.allSolvers = r.all
-			o.script = ""
-			o.scriptQF = ""
-			o.scriptAbs = ""
-			o.scriptFull = ""
+			o.asserts, o.assertsFull, o.assertsAbs, o.assertsQF = nil, nil, nil, nil
 			mu.Unlock()
 		}()
 	}
 	wg.Wait()
-}
-
-// pruneAsserts keeps the goal part and those background facts that are
-// connected to it through shared symbols (cone of influence).  Dropping a
-// background fact can only make a proof fail, never succeed wrongly.
-func connecting(sym string) bool {
-	// function symbols and allocation counters occur almost everywhere; they
-	// do not make two facts relevant to each other
-	if strings.HasPrefix(sym, "uf:") || sym == "A0" || strings.HasPrefix(sym, "alloc!") || strings.HasPrefix(sym, "allocj!") || strings.HasPrefix(sym, "hv:G:alloc!") {
-		return false
-	}
-	return true
 }
 
 // anchors of a term: its ground applications of uninterpreted functions and
@@ -472,4 +467,13 @@ func abstractStrings(asserts []*Term) ([]*Term, bool) {
 		out[i] = sub(a)
 	}
 	return out, changed
+}
+
+func connecting(sym string) bool {
+	// function symbols and allocation counters occur almost everywhere; they
+	// do not make two facts relevant to each other
+	if strings.HasPrefix(sym, "uf:") || sym == "A0" || strings.HasPrefix(sym, "alloc!") || strings.HasPrefix(sym, "allocj!") || strings.HasPrefix(sym, "hv:G:alloc!") {
+		return false
+	}
+	return true
 }
